@@ -425,7 +425,6 @@ VariablesStack::findXObject(
                 m_guardStack.pop_back();
 
                 m_stack[theEntryIndex].setValue(theNewValue);
-                m_stack[theEntryIndex].activate();
             }
 
             return theNewValue;
@@ -472,8 +471,9 @@ VariablesStack::findEntry(
             {
                 if(theEntry.getName()->equals(qname))
                 {
-                    theEntry.activate();
-
+                    // The parameter stays as it is: the xsl:param that
+                    // asked for it binds the value in its own element
+                    // frame, so the binding ends with the template.
                     theEntryIndex = i;
 
                     break;
